@@ -10,10 +10,11 @@ CANONICAL = ('der', 'per', 'uper', 'oer')
 
 
 def profile(tier, shard):
-    p = gen.Profile()
+    p = gen.Profile(components_of_rate=6)
     if tier == 'thorough':
         p.max_types = 6
         p.max_depth = 4
+        p.big_size_shapes = gen.BIG_SIZE_SHAPES + gen.HUGE_SIZE_SHAPES
     if os.environ.get('ASN1V_SMALL') == '1':
         p.max_types, p.max_depth, p.max_members, p.max_modules = 2, 2, 3, 1
     if shard.get('variant') == 'nodefaults':
